@@ -143,6 +143,13 @@ def generate(seed, tier):
                 g.rev("periodic", N, r, 0, c)
                 for d in range(0, DD + 1):
                     g.rev("hrevolve", N, r, d, c)
+    # H-Revolve with two or more disk levels in play: cost vectors under which the candidate lists of the split search are not
+    # unimodal (second local minimum is the global one)
+    for c in [(2, 1, 5, 3), (1, 2, 4, 1), (3, 1, 7, 2), (1, 1, 3, 1)]:
+        for N in range(6, (22 if thorough else 16) + 1):
+            for r in (1, 2):
+                for d in (2, 3):
+                    g.rev("hrevolve", N, r, d, c)
     for _ in range(200 if thorough else 40):
         N = rng.randint(NN, 150 if thorough else 90)
         r = rng.randint(1, 6)
